@@ -23,13 +23,18 @@ PLANETS = ["Mercury", "Venus", "Mars", "Jupiter", "Saturn", "Uranus", "Neptune"]
 from pyvc.repo import REPO as _REPO
 
 
+FINDER_NAMES = ("inferior_conjunction", "superior_conjunction", "western_elongation", "eastern_elongation", "conjunction",
+                "opposition", "station_longitude_1", "station_longitude_2")
+
+
 def finder_list():
+    """the Meeus ch.36 finders, by name (whatever their body looks like: the body is what the harnesses examine)"""
     out = []
     for pl in PLANETS:
         tree = ast.parse(open(os.path.join(_REPO, "pymeeus", pl + ".py")).read())
-        for cls in [n for n in tree.body if isinstance(n, ast.ClassDef)]:
+        for cls in [n for n in tree.body if isinstance(n, ast.ClassDef) and n.name == pl]:
             for f in cls.body:
-                if isinstance(f, ast.FunctionDef) and "k = round((365.2425 * y + 1721060.0 - a) / b)" in ast.unparse(f):
+                if isinstance(f, ast.FunctionDef) and f.name in FINDER_NAMES:
                     out.append((pl, f.name))
     return out
 
@@ -294,6 +299,12 @@ def b_events(rng, tier):
                 yield ((pl, fn, "year", bad), False, "accepted")
             except ValueError:
                 yield ((pl, fn, "year", bad), True, None)
+    # the recorded witness of the node-distance finding, so that every run reports it
+    from pymeeus.Mercury import Mercury
+    evw = Mercury.passage_nodes(Epoch(3145786.11), False)[0].jde()
+    dw = abs(evw - 3145786.11) / SIDEREAL["Mercury"]
+    yield (("Mercury", "passage_nodes", False, 3145786.11, "inside-known-envelope-distance" if 1.0 < dw <= 1.1 else
+            ("beyond-known-envelope" if dw > 1.1 else ""), "selection"), dw <= 1.0, ("farther than one period from the query", dw))
     # perihelion / aphelion and node passages
     for pl in ["Mercury", "Venus", "Earth", "Mars", "Jupiter", "Saturn", "Uranus"]:
         cls = getattr(importlib.import_module("pymeeus." + pl), pl)
@@ -305,9 +316,10 @@ def b_events(rng, tier):
                     if which == "passage_nodes" and (pl == "Earth" or not hasattr(cls, "passage_nodes")):
                         continue
                     prev = None
-                    q0 = min(max(jd_of_year(era) + rng.uniform(0, per), jd_of_year(-1999.0)), jd_of_year(3999.0) - 2.2 * per)
-                    for i in range(11 if tier == "thorough" else 6):
-                        q = q0 + i * per / 5.0
+                    q0 = min(max(jd_of_year(era) + rng.uniform(0, per), jd_of_year(-1999.0)), jd_of_year(3999.0) - 3.2 * per)
+                    nq, step = (120, per / 40.0) if tier == "thorough" else (30, per / 15.0)
+                    for i in range(nq):
+                        q = q0 + i * step
                         if not (jd_of_year(-2000.0) <= q <= jd_of_year(4000.0)):
                             continue
                         ok, det = True, None
@@ -319,6 +331,10 @@ def b_events(rng, tier):
                             env = ""
                             if abs(ev - q) > per:
                                 ok, det, env = False, ("farther than one period from the query", ev - q), "beyond-known-envelope"
+                                if which == "passage_nodes" and abs(ev - q) <= 1.1 * per:
+                                    # known finding: the node passage is counted from the perihelion nearest to the query (up to
+                                    # 0.66 P away, the fractional year drifts) and can then fall just beyond one period
+                                    env = "inside-known-envelope-distance"
                             elif prev is not None and ev < prev - acc:
                                 ok, det = False, ("result moved backwards", prev, ev)
                                 # known finding (outer planets' node passages from two-body elements taken at the query epoch):
